@@ -1,0 +1,41 @@
+//! Verification-only scheduling points (`cfg(folo_verif)`), used by the model-checking harnesses
+//! in `/verif`. With the cfg off this module does not exist and no call site is compiled.
+//!
+//! A harness installs plain function pointers of its controlled scheduler. `point` marks a place
+//! where the calling thread may be descheduled (always immediately *before* an `ArcSwap`
+//! operation, an atomic read-modify-write, a `OnceLock` initialisation or an event `set()`, never
+//! inside a critical section). `block_until` replaces a blocking wait by a modelled one.
+//! Without installed hooks every function is a no-op and the blocking calls stay real.
+
+#![allow(missing_docs, missing_debug_implementations, unreachable_pub, clippy::exhaustive_structs, reason = "verification-only")]
+
+use std::sync::OnceLock;
+
+#[derive(Clone, Copy)]
+pub struct Hooks {
+    pub point: fn(&'static str),
+    pub block_until: fn(&'static str, &mut dyn FnMut() -> bool),
+}
+
+static HOOKS: OnceLock<Hooks> = OnceLock::new();
+
+/// Installs the hooks; the first installation wins for the lifetime of the process.
+pub fn install(hooks: Hooks) {
+    let _ = HOOKS.set(hooks);
+}
+
+#[inline]
+pub(crate) fn point(label: &'static str) {
+    if let Some(h) = HOOKS.get() {
+        (h.point)(label);
+    }
+}
+
+/// Modelled blocking wait: returns once `cond` held (no-op without installed hooks, in which case
+/// the real blocking call that follows does the waiting).
+#[inline]
+pub(crate) fn block_until(label: &'static str, cond: &mut dyn FnMut() -> bool) {
+    if let Some(h) = HOOKS.get() {
+        (h.block_until)(label, cond);
+    }
+}
